@@ -9,22 +9,38 @@ Require V.T2.T2ProofsProg V.T2.T2ProofsPackets2.
 Lemma zrange_zseq : forall n, zrange n = zseq n.
 Proof. reflexivity. Qed.
 
-(* ---------- windows at origin 0 ---------- *)
+(* ---------- windows at a non-negative origin ---------- *)
 
-Lemma win_step_origin0 : forall w h, win_step (w, h, 0, 0) = (Z.quot (w + 1) 2, Z.quot (h + 1) 2, 0, 0).
-Proof. intros. reflexivity. Qed.
-
-Lemma win_iter_origin0 : forall n w h, 1 <= w -> 1 <= h ->
-  exists w' h', win_iter n (w, h, 0, 0) = (w', h', 0, 0) /\ 1 <= w' <= w /\ 1 <= h' <= h.
+Lemma win_step_box : forall w h x0 y0, 0 <= w -> 0 <= h -> 0 <= x0 -> 0 <= y0 ->
+  exists w' h' x' y', win_step (w, h, x0, y0) = (w', h', x', y') /\
+    0 <= w' <= w /\ 0 <= h' <= h /\ 0 <= x' /\ 0 <= y' /\ x' + w' <= x0 + w /\ y' + h' <= y0 + h /\ x' <= x0 /\ y' <= y0.
 Proof.
-  induction n as [|n IH]; intros w h Hw Hh.
-  - exists w, h. cbn. repeat split; lia.
-  - cbn [win_iter]. rewrite win_step_origin0.
-    assert (A : 1 <= Z.quot (w + 1) 2 <= w).
-    { rewrite Z.quot_div_nonneg by lia. pose proof (Z.div_mod (w + 1) 2 ltac:(lia)). pose proof (Z.mod_pos_bound (w + 1) 2 ltac:(lia)). lia. }
-    assert (B : 1 <= Z.quot (h + 1) 2 <= h).
-    { rewrite Z.quot_div_nonneg by lia. pose proof (Z.div_mod (h + 1) 2 ltac:(lia)). pose proof (Z.mod_pos_bound (h + 1) 2 ltac:(lia)). lia. }
-    destruct (IH _ _ (proj1 A) (proj1 B)) as [w' [h' [E [C D]]]]. exists w', h'. split; [exact E|]. lia.
+  intros w h x0 y0 Hw Hh Hx Hy. unfold win_step.
+  exists (split_len w (is_even_z x0)), (split_len h (is_even_z y0)), (next_coord_z x0), (next_coord_z y0).
+  split; [reflexivity|].
+  assert (G : forall n v, 0 <= n -> 0 <= v ->
+            0 <= split_len n (is_even_z v) <= n /\ 0 <= next_coord_z v /\ next_coord_z v + split_len n (is_even_z v) <= v + n /\ next_coord_z v <= v).
+  { intros n v Hn Hv. unfold next_coord_z, split_len. rewrite is_even_z_even. rewrite Z.shiftr_div_pow2 by lia.
+    change (2 ^ 1) with 2. rewrite !Z.quot_div_nonneg by lia.
+    pose proof (Z.div_mod (v + 1) 2 ltac:(lia)). pose proof (Z.mod_pos_bound (v + 1) 2 ltac:(lia)).
+    pose proof (Z.div_mod (n + 1) 2 ltac:(lia)). pose proof (Z.mod_pos_bound (n + 1) 2 ltac:(lia)).
+    pose proof (Z.div_mod n 2 ltac:(lia)). pose proof (Z.mod_pos_bound n 2 ltac:(lia)).
+    destruct (Z.even v) eqn:Ev.
+    - apply Z.even_spec in Ev as [k Ek]. lia.
+    - assert (Eo : Z.odd v = true) by (rewrite <- Z.negb_even, Ev; reflexivity).
+      apply Z.odd_spec in Eo as [k Ek]. lia. }
+  destruct (G w x0 Hw Hx) as (A & B & C). destruct (G h y0 Hh Hy) as (D & E & F). lia.
+Qed.
+
+Lemma win_iter_box : forall n w h x0 y0, 0 <= w -> 0 <= h -> 0 <= x0 -> 0 <= y0 ->
+  exists w' h' x' y', win_iter n (w, h, x0, y0) = (w', h', x', y') /\
+    0 <= w' <= w /\ 0 <= h' <= h /\ 0 <= x' /\ 0 <= y' /\ x' + w' <= x0 + w /\ y' + h' <= y0 + h /\ x' <= x0 /\ y' <= y0.
+Proof.
+  induction n as [|n IH]; intros w h x0 y0 Hw Hh Hx Hy.
+  - exists w, h, x0, y0. cbn. repeat split; lia.
+  - cbn [win_iter]. destruct (win_step_box w h x0 y0 Hw Hh Hx Hy) as (w1 & h1 & x1 & y1 & E1 & A).
+    rewrite E1. destruct (IH w1 h1 x1 y1 ltac:(lia) ltac:(lia) ltac:(lia) ltac:(lia)) as (w' & h' & x' & y' & E & B).
+    exists w', h', x', y'. split; [exact E|]. lia.
 Qed.
 
 (* ---------- one band ---------- *)
@@ -95,11 +111,17 @@ Let cbh := pp_cbh p.
 Lemma cb_range : 4 <= cbw <= 64 /\ 4 <= cbh <= 64.
 Proof. destruct Hsc as (_ & _ & _ & _ & _ & Hx & Hy & _). unfold pow2_size in *. unfold cbw, cbh. lia. Qed.
 
+Let x0 := pp_x0 p.
+Let y0 := pp_y0 p.
+
 Lemma wh_range : 1 <= w <= 32768 /\ 1 <= h <= 32768 /\ 0 <= L <= 6.
 Proof. destruct Hsc as (A & B & _ & _ & C & _). unfold w, h, L. lia. Qed.
 
+Lemma origin_range : 0 <= x0 /\ 0 <= y0 /\ x0 + w <= 32768 /\ y0 + h <= 32768.
+Proof. destruct Hsc as (_ & _ & _ & _ & _ & _ & _ & _ & _ & A & B & C & D & _). unfold w, h, x0, y0. lia. Qed.
+
 (* bands of resolution r, and the grid of one band *)
-Definition rbands (r : Z) : list band := enc_band_infos w h 0 0 L r.
+Definition rbands (r : Z) : list band := enc_band_infos w h x0 y0 L r.
 Definition bnx (b : band) : Z := enc_num_tiles (b_w b) cbw.
 Definition bny (b : band) : Z := enc_num_tiles (b_h b) cbh.
 Definition bgrid (b : band) : list (Z * Z) := grid_positions (bnx b) (bny b).
@@ -107,27 +129,36 @@ Definition bgrid (b : band) : list (Z * Z) := grid_positions (bnx b) (bny b).
 Lemma rbands_ids : forall r, map b_id (rbands r) = band_order r.
 Proof.
   intros r. unfold rbands, enc_band_infos, band_order.
-  destruct (enc_res_dims w h 0 0 L r) as [rw rh]. destruct (r =? 0); [reflexivity|].
-  destruct (enc_res_dims w h 0 0 L (r - 1)) as [lw lh]. reflexivity.
+  destruct (enc_res_dims w h x0 y0 L r) as [rw rh]. destruct (r =? 0); [reflexivity|].
+  destruct (enc_res_dims w h x0 y0 L (r - 1)) as [lw lh]. reflexivity.
 Qed.
 
 Lemma rbands_dims : forall r b, 0 <= r <= L -> In b (rbands r) -> 0 <= b_w b <= 32768 /\ 0 <= b_h b <= 32768.
 Proof.
   intros r b Hr Hb. destruct wh_range as (Hw & Hh & _).
-  destruct (bands_inside_array w h 0 0 L ltac:(lia) ltac:(lia) r b Hr Hb) as (A & B & C & D & E & F). lia.
+  destruct (bands_inside_array w h x0 y0 L ltac:(lia) ltac:(lia) r b Hr Hb) as (A & B & C & D & E & F). lia.
 Qed.
 
-Lemma dec_infos_origin : forall r, 0 <= r <= L -> exists rw rh,
-  dec_band_infos w h 0 0 L r = ((rw, rh, 0, 0), rbands r) /\ 1 <= rw /\ 1 <= rh.
+(* the decoder's resolution rectangle: inside the reference grid's [0, 32768) square; it may be
+   empty (odd tile origins), and then every band of the resolution is empty *)
+Lemma dec_infos_gen : forall r, 0 <= r <= L -> exists rw rh rx ry,
+  dec_band_infos w h x0 y0 L r = ((rw, rh, rx, ry), rbands r) /\
+  0 <= rw /\ 0 <= rh /\ 0 <= rx /\ 0 <= ry /\ rx + rw <= 32768 /\ ry + rh <= 32768 /\
+  (forall b, In b (rbands r) -> b_w b <= rw /\ b_h b <= rh).
 Proof.
-  intros r Hr. destruct wh_range as (Hw & Hh & _).
-  pose proof (dec_band_infos_agree w h 0 0 L r) as [Hs _]. fold (rbands r) in Hs.
-  destruct (win_iter_origin0 (level_no L r) w h ltac:(lia) ltac:(lia)) as [rw [rh [E [A B]]]].
-  exists rw, rh. split; [|lia].
-  destruct (dec_band_infos w h 0 0 L r) as [wn bs] eqn:Ed. cbn [snd] in Hs. subst bs. f_equal.
-  unfold dec_band_infos, dec_res_dims in Ed. rewrite E in Ed.
-  destruct (r =? 0); [congruence|].
-  destruct (win_iter (level_no L (r - 1)) (w, h, 0, 0)) as [[[a b] c] d]. congruence.
+  intros r Hr. destruct wh_range as (Hw & Hh & HL). destruct origin_range as (Ox & Oy & Oxw & Oyh).
+  pose proof (dec_band_infos_agree w h x0 y0 L r) as [Hs Hd]. fold (rbands r) in Hs.
+  destruct (win_iter_box (level_no L r) w h x0 y0 ltac:(lia) ltac:(lia) Ox Oy) as (rw & rh & rx & ry & E & A).
+  exists rw, rh, rx, ry.
+  assert (Ed : dec_band_infos w h x0 y0 L r = ((rw, rh, rx, ry), rbands r)).
+  { destruct (dec_band_infos w h x0 y0 L r) as [wn bs] eqn:Ed. cbn [snd] in Hs. subst bs. f_equal.
+    unfold dec_band_infos, dec_res_dims in Ed. rewrite E in Ed.
+    destruct (r =? 0); [congruence|].
+    destruct (win_iter (level_no L (r - 1)) (w, h, x0, y0)) as [[[a b] c] d]. congruence. }
+  split; [exact Ed|]. repeat (split; [lia|]).
+  intros b Hb. clear Hd.
+  pose proof (bands_inside w h x0 y0 L ltac:(lia) ltac:(lia) r b Hr Hb) as Hin.
+  cbv beta in Hin. rewrite E in Hin. cbn [winW winH fst snd] in Hin. lia.
 Qed.
 
 Lemma nx_bound : forall r b x, 0 <= r <= L -> In b (rbands r) -> 0 <= x < bnx b -> 0 <= x * cbw < 32768.
@@ -144,10 +175,11 @@ Qed.
 
 (* ---------- the decoder's precinct entries ---------- *)
 
-Lemma band_entries_origin : forall r b npx, 0 <= r <= L -> In b (rbands r) ->
-  band_entries p 0 0 0 0 npx b = map (fun xy => (0, b_id b, fst xy, snd xy)) (bgrid b).
+Lemma band_entries_gen : forall r b rx ry npx, 0 <= r <= L -> In b (rbands r) ->
+  0 <= rx -> 0 <= ry -> rx + b_w b <= 32768 -> ry + b_h b <= 32768 ->
+  band_entries p rx ry 0 0 npx b = map (fun xy => (0, b_id b, fst xy, snd xy)) (bgrid b).
 Proof.
-  intros r b npx Hr Hb. destruct (rbands_dims r b Hr Hb) as [Bw Bh]. destruct cb_range as [Cw Ch].
+  intros r b rx ry npx Hr Hb Hrx Hry Hxw Hyh. destruct (rbands_dims r b Hr Hb) as [Bw Bh]. destruct cb_range as [Cw Ch].
   unfold band_entries. fold cbw cbh.
   destruct ((b_w b <=? 0) || (b_h b <=? 0)) eqn:Ee.
   - symmetry. replace (bgrid b) with (@nil (Z * Z)); [reflexivity|]. symmetry. apply grid_positions_nil.
@@ -157,21 +189,46 @@ Proof.
   - unfold bgrid, grid_positions. rewrite map_flat_map. fold (bnx b) (bny b).
     change (Z.quot (b_h b + cbh - 1) cbh) with (bny b). change (Z.quot (b_w b + cbw - 1) cbw) with (bnx b).
     apply flat_map_ext_in. intros y Hy. apply in_zrange in Hy. rewrite map_map. apply map_ext_in. intros x Hx. apply in_zrange in Hx.
-    cbn [fst snd]. pose proof (nx_bound r b x Hr Hb Hx) as Nx. pose proof (ny_bound r b y Hr Hb Hy) as Ny.
-    unfold prec_sz. rewrite !Z.add_0_l, !Z.sub_0_r.
-    rewrite (Z.quot_small (x * cbw) 32768) by lia. rewrite (Z.quot_small (y * cbh) 32768) by lia.
-    cbn [Z.mul Z.add Z.ltb]. rewrite !Z.sub_0_r.
-    rewrite Z.quot_mul by lia. rewrite Z.quot_mul by lia. reflexivity.
+    cbn [fst snd].
+    destruct (nx_range b cbw cbh ltac:(lia) ltac:(lia) x Hx) as [_ Nx].
+    destruct (ny_range b cbw cbh ltac:(lia) ltac:(lia) y Hy) as [_ Ny].
+    assert (Px : 0 <= x * cbw) by nia. assert (Py : 0 <= y * cbh) by nia.
+    unfold prec_sz. rewrite !Z.sub_0_r.
+    rewrite (Z.quot_small (rx + x * cbw) 32768) by lia. rewrite (Z.quot_small (ry + y * cbh) 32768) by lia.
+    cbn [Z.mul Z.add].
+    assert (Ex : Z.quot (rx + x * cbw - (if 0 <? rx then rx else 0)) cbw = x).
+    { destruct (Z.ltb_spec 0 rx).
+      - replace (rx + x * cbw - rx) with (x * cbw) by lia. apply Z.quot_mul. lia.
+      - replace (rx + x * cbw - 0) with (x * cbw) by lia. apply Z.quot_mul. lia. }
+    assert (Ey : Z.quot (ry + y * cbh - (if 0 <? ry then ry else 0)) cbh = y).
+    { destruct (Z.ltb_spec 0 ry).
+      - replace (ry + y * cbh - ry) with (y * cbh) by lia. apply Z.quot_mul. lia.
+      - replace (ry + y * cbh - 0) with (y * cbh) by lia. apply Z.quot_mul. lia. }
+    rewrite Ex, Ey. reflexivity.
+Qed.
+
+Lemma floor_div_small : forall v, 0 <= v < 32768 -> K.floor_div v prec_sz * prec_sz = 0.
+Proof.
+  intros v Hv. unfold K.floor_div, prec_sz. cbn [Z.leb Z.compare]. destruct (Z.geb_spec v 0); [|lia]. rewrite Z.quot_small by lia. reflexivity.
 Qed.
 
 Lemma res_entries_origin : forall r, 0 <= r <= L ->
   res_entries p r = flat_map (fun b => map (fun xy => (0, b_id b, fst xy, snd xy)) (bgrid b)) (rbands r).
 Proof.
-  intros r Hr. destruct (dec_infos_origin r Hr) as [rw [rh [E [A B]]]].
-  unfold res_entries. fold w h L. rewrite E.
-  destruct (Z.leb_spec rw 0); [lia|]. destruct (Z.leb_spec rh 0); [lia|]. cbn [orb].
-  apply flat_map_ext_in. intros b Hb. change (K.floor_div 0 prec_sz * prec_sz) with 0.
-  apply (band_entries_origin r b _ Hr Hb).
+  intros r Hr. destruct (dec_infos_gen r Hr) as (rw & rh & rx & ry & E & A & B & C & D & F & G & Hbs).
+  unfold res_entries. fold w h L x0 y0. rewrite E.
+  destruct ((rw <=? 0) || (rh <=? 0)) eqn:Ee.
+  - (* empty resolution: every band is empty *)
+    symmetry. apply T2ProofsProg.flat_map_nil_all. intros b Hb. destruct (Hbs b Hb) as [Bw Bh].
+    destruct (rbands_dims r b Hr Hb) as [Pw Ph]. destruct cb_range as [Cw Ch].
+    replace (bgrid b) with (@nil (Z * Z)); [reflexivity|]. symmetry. apply grid_positions_nil.
+    apply orb_true_iff in Ee as [E'|E']; apply Z.leb_le in E'; [left|right]; unfold bnx, bny.
+    + replace (b_w b) with 0 by lia. rewrite num_blocks_zero; lia.
+    + replace (b_h b) with 0 by lia. rewrite num_blocks_zero; lia.
+  - apply orb_false_iff in Ee as [E1 E2]. apply Z.leb_gt in E1, E2.
+    rewrite (floor_div_small rx) by lia. rewrite (floor_div_small ry) by lia.
+    apply flat_map_ext_in. intros b Hb. destruct (Hbs b Hb) as [Bw Bh].
+    apply (band_entries_gen r b rx ry _ Hr Hb); lia.
 Qed.
 
 (* ---------- the encoder's blocks ---------- *)
